@@ -398,6 +398,11 @@ func runCase(c Case, o *vt.Obs, strict bool) (*outcome, error) {
 			fund = append(fund, ck.Action{Kind: "raw", From: deployerI, V: fundScript(deployer, h, np.funds[i]), Nonce: 7100 + uint32(i)})
 		}
 	}
+	// Two oracle requests through the library contracts stay pending (callbacks: one stores the result, one stores it and
+	// then throws): oracle responses among the noise transactions of the last block run these callbacks.
+	fund = append(fund,
+		ck.Action{Kind: "oracle_request", From: deployerI, A: 0, B: 1, N: 1_0000_0000, S: "a", V: vt.Bytes("c04"), Nonce: 7200},
+		ck.Action{Kind: "oracle_request", From: deployerI, A: 1, B: 2, N: 1_0000_0000, S: "b", V: vt.Bytes("c04"), Nonce: 7201})
 	for _, spec := range [][]ck.Action{dep, fund} {
 		raw, blk, err := b.BuildBlock(ck.BlockSpec{Txs: spec, TimeD: 1000})
 		if err != nil {
@@ -439,6 +444,14 @@ func runCase(c Case, o *vt.Obs, strict bool) (*outcome, error) {
 		}
 		items = append(items, item{tx, "noise"})
 	}
+	// A later noise transaction may have replaced an earlier one in the pool (two oracle responses to one request).
+	kept := items[:0]
+	for _, it := range items {
+		if bc.GetMemPool().ContainsKey(it.tx.Hash()) {
+			kept = append(kept, it)
+		}
+	}
+	items = kept
 	pos := 0
 	if len(items) > 0 {
 		pos = mod(c.Pos, len(items)+1)
@@ -537,6 +550,13 @@ func runCase(c Case, o *vt.Obs, strict bool) (*outcome, error) {
 		return out, fmt.Errorf("after the block: %v", err)
 	}
 	out.after = after
+	// An oracle callback that threw (oracleCbFail writes an item under a reserved prefix first) leaves no item behind.
+	for _, l := range ck.Flows(bc, blkA, nil) {
+		o.Label("noise/" + l)
+	}
+	if leaked := ck.LeakedFailedCallbackWrites(bc); len(leaked) != 0 {
+		return out, fmt.Errorf("storage items written by an oracle callback that threw afterwards survived the block: %v", leaked)
+	}
 
 	// ---- oracle 1: the model
 	init := before.clone()
